@@ -31,6 +31,7 @@ def run(check: Check, repo: Repo, tier: str) -> None:
     S.validation_cache(check, repo)
     S.reserved_names(check, repo)
     S.unvalidated_elements(check, repo)
+    S.deprecation_direction(check, repo)
     from rules import sdl_rules as D
 
     D.assume_valid_fresh(check, repo)
